@@ -22,6 +22,8 @@ pub struct T {
     pub targets: Arc<Mutex<HashMap<String, Body>>>,
     pub chunk: usize,
     pub log: Arc<Mutex<Vec<String>>>,
+    /// body served for any target path that has no entry of its own
+    pub default_target: Arc<Mutex<Option<Body>>>,
 }
 
 #[async_trait]
@@ -32,7 +34,10 @@ impl Transport for T {
         if let Some(b) = self.meta.lock().unwrap().get(&p) {
             return Ok(Box::pin(futures::stream::iter(vec![Ok(bytes::Bytes::from(b.clone()))])));
         }
-        let body = self.targets.lock().unwrap().get(&p).cloned();
+        let mut body = self.targets.lock().unwrap().get(&p).cloned();
+        if body.is_none() && p.starts_with("/t/") {
+            body = self.default_target.lock().unwrap().clone();
+        }
         let chunk = self.chunk;
         let mk = |b: &Vec<u8>| -> Vec<std::result::Result<bytes::Bytes, TransportError>> {
             let c = if chunk == 0 { b.len().max(1) } else { chunk };
